@@ -103,7 +103,7 @@ def image_file(data, level='1.5', year=2020, doy=60, ms0=1000, extra_hdr=None, e
         body += pre + raw[i].tobytes()
     return bytes(hdr) + bytes(body)
 
-def leader_file(n_att=3, n_chan=2, mapproj=1, fac_len=(1000,1200,1400,1600), year=2020, att_doy=60, att_ms=1000, rng=None, att_len=16384, platform_date=(2, 28)):
+def leader_file(n_att=3, n_chan=2, mapproj=1, fac_len=(1000,1200,1400,1600), year=2020, att_doy=60, att_ms=1000, rng=None, att_len=16384, platform_date=(2, 28), seconds_of_day='43200.5'):
     parts = []
     counts = {('map_projection',): mapproj,
         ('attitude','data_points'): n_att, ('attitude','blanks'): att_len-16-120*n_att,
@@ -124,7 +124,7 @@ def leader_file(n_att=3, n_chan=2, mapproj=1, fac_len=(1000,1200,1400,1600), yea
         'dataset_summary.weighting_function_in_azimuth':'1','dataset_summary.weighting_function_in_range':'1',
         'platform_position.orbital_elements_designator':'2',
         'platform_position.datetime_of_first_point.date': f'{year} {platform_date[0]:2d} {platform_date[1]:2d}', 'platform_position.datetime_of_first_point.day_of_year': 60,
-        'platform_position.datetime_of_first_point.seconds_of_day': '43200.5',
+        'platform_position.datetime_of_first_point.seconds_of_day': seconds_of_day,
         'attitude.number_of_points': n_att,
         'attitude.preamble.record_length': att_len,
         'data_quality_summary.number_of_channels': n_chan,
